@@ -176,6 +176,23 @@ impl<'p> Evaluator<'_, 'p> {
         Ok(args_thunks.into_boxed_slice())
     }
 
+    /// Executes a call made by the evaluator itself (elements of `std.map` and
+    /// friends), whose positional arguments have not been matched against the
+    /// parameters of `func` yet, so that default arguments are bound and an
+    /// arity mismatch is reported as an error.
+    #[inline]
+    pub(super) fn check_thunk_args_and_execute_untraced_call(
+        &mut self,
+        func: &FuncData<'p>,
+        positional_args: &[GcView<ThunkData<'p>>],
+    ) -> EvalResult<()> {
+        let (_, func_env) = self.get_func_info(func);
+        let args_thunks =
+            self.check_call_thunk_args(&func.params, positional_args, &[], func_env)?;
+        self.execute_call(func, args_thunks);
+        Ok(())
+    }
+
     #[inline]
     pub(super) fn check_thunk_args_and_execute_call(
         &mut self,
